@@ -389,12 +389,20 @@ def pmap(fn, jobs, procs=14):
     size = max(1, min(25, len(jobs) // (procs * 4) or 1))
     chunks = [jobs[i : i + size] for i in range(0, len(jobs), size)]
     out = []
+    import gc
+
+    # objects that exist before the fork (tens of thousands of parsed cases)
+    # would be traversed by every gc.collect() the store performs in the workers
+    gc.collect()
+    gc.freeze()
     try:
         with cf.ProcessPoolExecutor(procs, mp_context=mp.get_context('fork')) as ex:
             for res in ex.map(_chunk, [(fn, c) for c in chunks]):
                 out.extend(res)
     except cf.process.BrokenProcessPool as e:
         raise MachineryError(f'a replay worker process died ({e}); {len(out)} of {len(jobs)} jobs had completed') from e
+    finally:
+        gc.unfreeze()
     return out
 
 
